@@ -206,7 +206,16 @@ func (v *Val) writeYAML(b *strings.Builder, depth int, inline bool) {
 		b.WriteString(jsonStr(v.S))
 		b.WriteByte('\n')
 	case 'n':
-		b.WriteString(jsonNum(v.N))
+		switch {
+		case math.IsInf(v.N, 1):
+			b.WriteString(".inf")
+		case math.IsInf(v.N, -1):
+			b.WriteString("-.inf")
+		case math.IsNaN(v.N):
+			b.WriteString(".nan")
+		default:
+			b.WriteString(jsonNum(v.N))
+		}
 		b.WriteByte('\n')
 	case 'b':
 		if v.B {
@@ -435,6 +444,7 @@ type GenCfg struct {
 	Fractions  bool
 	Big        bool // pad to >= 10 KiB
 	NumLikeKey bool // allow keys that look like numbers / "-"
+	YAMLFloats bool // allow .inf / .nan (only meaningful for YAML carriers)
 }
 
 func genCfg(c *Chooser) GenCfg {
@@ -466,6 +476,9 @@ func genKey(c *Chooser, g GenCfg) string {
 func genScalar(c *Chooser, g GenCfg) *Val {
 	switch c.Pick(4, 4, 2, 1) {
 	case 0:
+		if g.YAMLFloats && c.Chance(1, 6) {
+			return vn([]float64{math.Inf(1), math.Inf(-1), math.NaN()}[c.Int(3)])
+		}
 		if g.Fractions && c.Chance(1, 3) {
 			return vn([]float64{0.5, 1.25, -2.75, 1e-7, 3.0000001, 1e21, -0.1}[c.Int(7)])
 		}
@@ -732,4 +745,28 @@ func everyArrayObjectHas(v *Val, keys []string) bool {
 		}
 	}
 	return true
+}
+
+// perturb returns a clone of v in which some numbers moved by about eps.
+func perturb(c *Chooser, v *Val, eps float64) *Val {
+	v = v.clone()
+	var walk func(n *Val)
+	walk = func(n *Val) {
+		switch n.K {
+		case 'n':
+			if c.Chance(1, 2) {
+				n.N += eps * []float64{0.5, -0.5, 0.99, -0.25, 1.5}[c.Int(5)]
+			}
+		case 'o':
+			for _, x := range n.Vals {
+				walk(x)
+			}
+		case 'a':
+			for _, x := range n.Elems {
+				walk(x)
+			}
+		}
+	}
+	walk(v)
+	return v
 }
